@@ -327,6 +327,54 @@ def convert_variable_case(seed):
     return bad
 
 
+def rule_scenarios(seed):
+    """(a) a rule INTO dimensionless, and units of the source dimension defined AFTER it: they are ordinary units; (b) the
+    quantity handed to convert is not changed by the call: converting it a second time, to a unit of its own dimension,
+    needs no rule and still works"""
+    from cellmlmanip.units import UnitStore
+    rng = random.Random(seed)
+    bad = []
+    us = UnitStore()
+    mV = us.add_unit('mV', 'volt / 1000')
+    dless = us.get_unit('dimensionless')
+    VT = us.Quantity(rng.choice([25.0, 26.7, 0.5]), mV)
+    us.add_conversion_rule(mV, dless, lambda ureg, rhs: rhs / VT)
+    sc = rng.choice(['1e-6', '1e-9', '60', '2.5'])
+    uV = us.add_unit('uV', 'volt * ' + sc)              # defined after the rule
+    pc = us.add_unit('pc', 'dimensionless * 0.01')
+    for a, b, want in ((uV, mV, float(sc) * 1000), (uV, us.get_unit('volt'), float(sc)), (pc, dless, 0.01),
+                       (mV, dless, 1.0 / VT.magnitude), (uV, dless, float(sc) * 1000 / VT.magnitude)):
+        try:
+            got = float(us.get_conversion_factor(a, b))
+        except Exception as e:
+            got = repr(e)
+        if not (isinstance(got, float) and math.isclose(got, want, rel_tol=1e-9)):
+            bad.append(('with a rule voltage -> dimensionless registered BEFORE the unit was defined, factor(%s -> %s) is %s, expected %r'
+                        % (a, b, got, want), {'scenario': seed}))
+    try:
+        us.get_conversion_factor(dless, uV)
+        bad.append(('conversion dimensionless -> %s succeeds although the only rule goes the other way' % uV, {'scenario': seed}))
+    except Exception:
+        pass
+    # (b)
+    nA = us.add_unit('nA', 'ampere * 1e-9')
+    pA = us.add_unit('pA', 'ampere * 1e-12')
+    dens = us.add_unit('uA_per_cm2', 'ampere * 1e-6 / (metre * 0.01) ** 2')
+    area = us.Quantity(rng.choice([2.0, 0.5]), us.get_unit('metre') ** 2)
+    us.add_conversion_rule(nA, dens, lambda ureg, rhs: rhs / area)
+    q = us.Quantity(3.0, nA)
+    try:
+        us.convert(q, dens)
+        again = us.convert(q, pA)
+        if q.units != nA or q.magnitude != 3.0 or not math.isclose(float(again.magnitude), 3000.0, rel_tol=1e-9):
+            bad.append(('convert(q, unit) changed its argument: q is now %s, converting it again to pA gives %s' % (q, again),
+                        {'scenario': seed}))
+    except Exception as e:
+        bad.append(('after convert(q, %s) along a rule, converting the same quantity q = 3 nA to pA raises %r' % (dens, e),
+                    {'scenario': seed}))
+    return bad
+
+
 def work(case):
     try:
         return run_impl(case)
@@ -372,6 +420,10 @@ def run(ctx):
         if i < 1:
             ctx.sample({'rules': case['rules'], 'ops': case['ops'][:6], 'n_ops': len(case['ops'])})
     seeds = [ctx.seed * 1000 + i for i in range(20 if ctx.tier == 'quick' else 200)]
+    for sd, bad in zip(seeds, vlib.pmap(rule_scenarios, seeds)):
+        ctx.count(case_key=('scenario', sd), kind='rule-scenario')
+        for what, detail in bad:
+            ctx.violation(what, {'rule_scenario': detail})
     for sd, bad in zip(seeds, vlib.pmap(convert_variable_case, seeds)):
         ctx.count(case_key=('cv', sd), kind='convert_variable')
         for what, detail in bad:
@@ -390,6 +442,9 @@ def _tup(x):
 
 
 def replay(ctx, case):
+    if 'rule_scenario' in case:
+        bad = rule_scenarios(case['rule_scenario']['scenario'])
+        return bad[0][0] if bad else None
     if 'convert_variable_case' in case:
         bad = convert_variable_case(case['convert_variable_case']['seed'])
         return bad[0][0] if bad else None
